@@ -294,7 +294,10 @@ func runC02(p *Prog, r *Report) {
 			as := atomsAt(st.Instr.Block())
 			none := hasAtom(as, isCounterZero) || hasAtom(as, isNoResponses)
 			hasErr := hasAtom(as, func(a Atom) bool {
-				m, isNil := nilTestOn(a, func(v ssa.Value) bool { f := loadedField(canon(v)); return f == errOfDef || (f != nil && f.Name() == "Error") })
+				m, isNil := nilTestOn(a, func(v ssa.Value) bool {
+					f := loadedField(canon(v))
+					return f == errOfDef || (f != nil && f.Name() == "Error")
+				})
 				return m && !isNil
 			})
 			r.Check(none && hasErr, fmt.Sprintf("contract.details.%s#%d", s.key, nDet), "R-GUARD", p.InstrPos(st.Instr), "request info is appended to the error details only when no response was sent and an error is defined: "+atomsString(as),
